@@ -20,6 +20,40 @@
 using namespace muduo;
 using namespace muduo::net;
 
+namespace
+{
+
+// What a connection queues in its loop for itself - a send() made on another
+// thread, start/stopRead(), the half-close, the write-complete and high-water
+// notifications - must not keep the connection alive: ~TcpClient takes every
+// reference besides its own for a user's and then leaves the connection open,
+// so that it used to be destroyed, still connected, together with the functor.
+// Only forceCloseInLoop() and connectDestroyed(), which take the connection
+// down, travel with a reference of their own.
+
+void notifyWriteComplete(const std::weak_ptr<TcpConnection>& weak,
+                         const WriteCompleteCallback& cb)
+{
+  TcpConnectionPtr conn(weak.lock());
+  if (conn)
+  {
+    cb(conn);
+  }
+}
+
+void notifyHighWaterMark(const std::weak_ptr<TcpConnection>& weak,
+                         const HighWaterMarkCallback& cb,
+                         size_t len)
+{
+  TcpConnectionPtr conn(weak.lock());
+  if (conn)
+  {
+    cb(conn, len);
+  }
+}
+
+}  // namespace
+
 void muduo::net::defaultConnectionCallback(const TcpConnectionPtr& conn)
 {
   LOG_TRACE << conn->localAddress().toIpPort() << " -> "
@@ -101,8 +135,7 @@ void TcpConnection::send(const StringPiece& message)
     {
       void (TcpConnection::*fp)(const StringPiece& message) = &TcpConnection::sendInLoop;
       loop_->runInLoop(
-          std::bind(fp,
-                    shared_from_this(),  // the caller may drop its reference first
+          std::bind(makeWeakCallback(shared_from_this(), fp),  // nothing to do if the connection is gone by then
                     message.as_string()));
                     //std::forward<string>(message)));
     }
@@ -123,8 +156,7 @@ void TcpConnection::send(Buffer* buf)
     {
       void (TcpConnection::*fp)(const StringPiece& message) = &TcpConnection::sendInLoop;
       loop_->runInLoop(
-          std::bind(fp,
-                    shared_from_this(),  // the caller may drop its reference first
+          std::bind(makeWeakCallback(shared_from_this(), fp),  // nothing to do if the connection is gone by then
                     buf->retrieveAllAsString()));
                     //std::forward<string>(message)));
     }
@@ -156,7 +188,9 @@ void TcpConnection::sendInLoop(const void* data, size_t len)
       remaining = len - nwrote;
       if (remaining == 0 && writeCompleteCallback_)
       {
-        loop_->queueInLoop(std::bind(writeCompleteCallback_, shared_from_this()));
+        loop_->queueInLoop(std::bind(&notifyWriteComplete,
+                                     std::weak_ptr<TcpConnection>(shared_from_this()),
+                                     writeCompleteCallback_));
       }
     }
     else // nwrote < 0
@@ -181,7 +215,10 @@ void TcpConnection::sendInLoop(const void* data, size_t len)
         && oldLen < highWaterMark_
         && highWaterMarkCallback_)
     {
-      loop_->queueInLoop(std::bind(highWaterMarkCallback_, shared_from_this(), oldLen + remaining));
+      loop_->queueInLoop(std::bind(&notifyHighWaterMark,
+                                   std::weak_ptr<TcpConnection>(shared_from_this()),
+                                   highWaterMarkCallback_,
+                                   oldLen + remaining));
     }
     outputBuffer_.append(static_cast<const char*>(data)+nwrote, remaining);
     if (!channel_->isWriting())
@@ -199,7 +236,7 @@ void TcpConnection::shutdown()
     setState(kDisconnecting);
     // queued, so that it stays behind every send() accepted before it,
     // whichever thread made that send()
-    loop_->queueInLoop(std::bind(&TcpConnection::shutdownInLoop, shared_from_this()));
+    loop_->queueInLoop(makeWeakCallback(shared_from_this(), &TcpConnection::shutdownInLoop));
   }
 }
 
@@ -293,7 +330,7 @@ void TcpConnection::setTcpNoDelay(bool on)
 
 void TcpConnection::startRead()
 {
-  loop_->runInLoop(std::bind(&TcpConnection::startReadInLoop, shared_from_this()));
+  loop_->runInLoop(makeWeakCallback(shared_from_this(), &TcpConnection::startReadInLoop));
 }
 
 void TcpConnection::startReadInLoop()
@@ -310,7 +347,7 @@ void TcpConnection::startReadInLoop()
 
 void TcpConnection::stopRead()
 {
-  loop_->runInLoop(std::bind(&TcpConnection::stopReadInLoop, shared_from_this()));
+  loop_->runInLoop(makeWeakCallback(shared_from_this(), &TcpConnection::stopReadInLoop));
 }
 
 void TcpConnection::stopReadInLoop()
@@ -388,7 +425,9 @@ void TcpConnection::handleWrite()
         channel_->disableWriting();
         if (writeCompleteCallback_)
         {
-          loop_->queueInLoop(std::bind(writeCompleteCallback_, shared_from_this()));
+          loop_->queueInLoop(std::bind(&notifyWriteComplete,
+                                       std::weak_ptr<TcpConnection>(shared_from_this()),
+                                       writeCompleteCallback_));
         }
         if (state_ == kDisconnecting)
         {
@@ -396,7 +435,7 @@ void TcpConnection::handleWrite()
           // may still be waiting in the loop's queue, and the half-close must
           // stay behind it
           loop_->queueInLoop(
-              std::bind(&TcpConnection::shutdownInLoop, shared_from_this()));
+              makeWeakCallback(shared_from_this(), &TcpConnection::shutdownInLoop));
         }
       }
     }
